@@ -4,6 +4,9 @@ package exec
 
 import (
 	"context"
+	"strings"
+
+	"github.com/grailbio/base/errors"
 
 	"github.com/grailbio/base/limiter"
 	"github.com/grailbio/base/sync/ctxsync"
@@ -158,5 +161,98 @@ func zzH_C09_machineCombine() {
 	zz.Assert(lerr != nil, "a task that combines into an already committed buffer fails (its rows would be lost)")
 	if len(gk) < len(fd.keys) {
 		zz.Reach("keys combined across tasks")
+	}
+}
+
+// zzH_C09_workerCombineFlush: enough distinct keys in one partition (five
+// concrete ones plus two solver-chosen ones, all values symbolic) that the
+// per-task table passes half of its capacity and is flushed into the machine
+// combiner in mid-stream, while the read buffer keeps being reused: the
+// committed output is still one folded row per key.
+func zzH_C09_workerCombineFlush() {
+	zzRegisterKey()
+	zzConstHash = true
+	defer func() { zzConstHash = false }()
+	old := *defaultChunksize
+	*defaultChunksize = 2
+	defer func() { *defaultChunksize = old }()
+	ctx := context.Background()
+	fd := &zzFed{}
+	const n = 7
+	ks, vs := make([]zzKey, n), make([]int64, n)
+	for i := 0; i < n; i++ {
+		ks[i], vs[i] = zzKey(i+1), zz.AnyInt64("val")
+	}
+	ks[5] = zzKey(zz.AnyInt64("key")) // may repeat an earlier key, or be new
+	ks[6] = zzKey(zz.AnyInt64("key"))
+	fd.keys, fd.vals = ks, vs
+	fn, _ := slicefunc.Of(zzAdd64)
+	name := TaskName{InvIndex: 1, Op: "t", Shard: 0, NumShard: 1}
+	t := &Task{Name: name, Type: zzCombTyp, NumPartition: 1, Combiner: fn}
+	t.Partitioner = func(ctx context.Context, f frame.Frame, nshard int, shards []int) {
+		for i := range shards {
+			shards[i] = 0
+		}
+	}
+	f := frame.Slices(append([]zzKey(nil), ks...), append([]int64(nil), vs...))
+	oneByOne := zz.AnyBool("oneRowPerRead")
+	t.Do = func([]sliceio.Reader) sliceio.Reader {
+		if oneByOne {
+			return &zzOneByOne{f: f}
+		}
+		return sliceio.FrameReader(f)
+	}
+	w, st := zzNewCombWorker(map[TaskName]*Task{t.Name: t})
+	zzEncs, zzEncOrder, zzEncFailAt, zzEncWrites = map[*sliceio.Encoder]*zzEnc{}, nil, -1, 0
+	var reply taskRunReply
+	err := w.Run(ctx, taskRunRequest{Name: t.Name, Invocation: 1}, &reply)
+	zz.Assert(err == nil && t.state == TaskOk, "a healthy combining task succeeds")
+	if err != nil {
+		return
+	}
+	_, serr := st.Stat(ctx, t.Name, 0)
+	zz.Assert(serr == nil, "the combined output is committed under the task's name")
+	gk, gv := zzStoredRows(0)
+	fd.check(gk, gv, "worker-combined output after a mid-stream flush", true)
+	zz.Reach("worker combine with mid-stream flush committed")
+}
+
+// zzH_C06_workerCombinerPanic: the user's reduce combiner panics on a worker
+// (two rows with equal keys meet in the per-task table): Run returns a FATAL
+// error carrying the panic value and leaves the worker's task in error.
+func zzH_C06_workerCombinerPanic() {
+	zzRegisterKey()
+	zzConstHash = true
+	defer func() { zzConstHash = false }()
+	old := *defaultChunksize
+	*defaultChunksize = 2
+	defer func() { *defaultChunksize = old }()
+	ctx := context.Background()
+	fd := &zzFed{}
+	t := zzCombTask("t", "", fd, zz.AnyIntIn("rows", 0, 3), zz.AnyBool("oneRowPerRead"))
+	t.Combiner, _ = slicefunc.Of(zzPanicAdd64)
+	dup := false
+	for i := range fd.keys {
+		for j := 0; j < i; j++ {
+			dup = zz.Or(dup, fd.keys[i] == fd.keys[j])
+		}
+	}
+	w, st := zzNewCombWorker(map[TaskName]*Task{t.Name: t})
+	zzEncs, zzEncOrder, zzEncFailAt, zzEncWrites = map[*sliceio.Encoder]*zzEnc{}, nil, -1, 0
+	var reply taskRunReply
+	err := w.Run(ctx, taskRunRequest{Name: t.Name, Invocation: 1}, &reply)
+	if dup {
+		zz.Reach("combiner panicked on the worker")
+		zz.Assert(err != nil && errors.Match(fatalErr, err), "a panic in the user's combiner is returned by the worker as a FATAL error")
+		zz.Assert(err != nil && strings.Contains(err.Error(), zzUserMsg), "the error carries the panic value")
+		zz.Assert(t.state == TaskErr, "the worker's task is in error")
+		// (runCombine's deferred commit runs while the panic unwinds, so a
+		// partial buffer may be committed under the task's name; the task is
+		// in fatal error, so no consumer ever reads it - the property does
+		// not forbid this, and it is not asserted.)
+		_ = st
+	} else {
+		zz.Reach("combiner never called")
+		zz.Assert(err == nil, "without equal keys the task succeeds")
 	}
 }
